@@ -56,6 +56,35 @@ def run_c01(ctx):
     }
 
 
+def run_c06(ctx):
+    ctx.build_harness()
+    out = ctx.tlc("ExprCheck", "expr_scope", workers=16, timeout=6000)["out"]
+    ctx.harness("expr-replay", "--property", "C06", "--cases", out, "--seed", ctx.seed,
+                "--layouts", 3 if ctx.tier == "thorough" else 2, "--trace", "scope.ndjson", "--out", "scope.json", timeout=7200)
+    ctx.load_result("scope.json")
+    os.unlink(out)
+    vouts = ctx.tlc_trace("ExprCheck", "trace_expr", ctx.path("scope.ndjson"), chunks=14)
+    ctx.harness("expr-trace-check", "--property", "C06", "--side", "scope.ndjson.side", "--verdicts", ",".join(vouts),
+                "--out", "scopetrace.json")
+    tr = ctx.load_result("scopetrace.json")
+    return {
+        "exhaustive": True,
+        "assumptions": ASSUME + ["parameter snippets are single placeholders ($1..$4): parameters are inserted verbatim by contract"],
+        "coverage": {
+            "rule": "every program of the scope family: 10 binding set-ups (single, chain, redefinition, let over parameter, "
+                    "parameter only, let referring to a parameter, lets after the query, unused binding, later shadowing, "
+                    "parameters colliding with a column and with the constant true) x 9 value shapes x 20 use sites "
+                    "(operand of every operator class, sign, index base and index, in subject and list, call argument, "
+                    "quoted / qualified / function-name occurrences that must not be substituted) and 10 expression "
+                    "positions incl. row counts and join conditions. Design level: writer model with scope vs lexical "
+                    "scoping semantics on every row and placeholder valuation; conformance: the real SQL statement is read "
+                    "and evaluated by TLC with the placeholders bound.",
+            "compilations_validated_by_TLC": tr["cases"],
+        },
+    }
+
+
 CHECKS = {
     "C01": {"run": run_c01, "level": "model_checking"},
+    "C06": {"run": run_c06, "level": "model_checking"},
 }
